@@ -245,6 +245,16 @@ def check_userff(case):
             res.bad(f"C01:userff:load:{type(e).__name__}", f"documented-format pair rejected: {e!r}")
             return res
         model = ffmodel.resolve_text(dat, names, tuple(ffmodel.universe()))
+        chosen = {rd["canon"] for rd in case["residues"]}
+        # names that merely contain a chosen name (RA3 vs RA, CALA vs ALA ...) must stay undefined
+        for other in ffmodel.universe():
+            if other in chosen or not any(c in other for c in chosen):
+                continue
+            for a in ("N", "CA", "O", "H", "P", "C1'", "OXT"):
+                got = ff.get_params(other, a)
+                m = model.get(other, {}).get(a)
+                if (got != (None, None)) != (m is not None):
+                    res.bad("C01:userff:leak", f"{other} {a}: code {got}, documented resolution {m and m[:2]}")
         for rd in case["residues"]:
             canon = rd["canon"]
             for a in _res_atoms(canon) + ["XX9"]:
@@ -265,10 +275,95 @@ def check_userff(case):
     return res
 
 
+# ------------------------------------------------------------------ end to end
+@st.composite
+def e2e_case(draw):
+    from .. import e2e
+
+    kind = draw(st.sampled_from(["protein", "protein", "protein", "na"]))
+    if kind == "na":
+        from . import c02
+
+        c = draw(c02.na_case())
+        c["part"] = "e2e"
+        return c
+    mode = draw(st.sampled_from([[], [], ["--noopt"], ["--nodebump", "--noopt"], ["--assign-only"]]))
+    hyd = "all" if mode == ["--assign-only"] else None
+    desc = draw(e2e.structure(max_chains=2, nmax=5, contact=False, variants=0.3, hyd=hyd))
+    ff = draw(st.sampled_from(strat.FFS))
+    opts = list(mode)
+    if ff == "PARSE" and not mode:
+        for o in ("--neutraln", "--neutralc"):
+            if draw(st.integers(0, 2)) == 0:
+                opts.append(o)
+    if draw(st.booleans()):
+        opts.append("--whitespace")
+    return dict(part="e2e", desc=desc, ff=ff, opts=opts)
+
+
+def check_e2e(case):
+    from .. import e2e
+
+    res = Result()
+    desc, ff, opts = case["desc"], case["ff"], case["opts"]
+    s, r = e2e.run_case(desc, ff, opts)
+    res.label(f"ff={ff}", "na" if desc.get("na") else "protein")
+    if not r.ok:
+        res.label("run-failed")
+        return res
+    A = e2e.analyse(desc, ff, opts, s, r)
+    if A.pairs is None:
+        res.label("unpaired")  # C03 reports partition/order problems
+        return res
+    model = ffmodel.builtin(ff)
+    written = {id(a): ln for ln, a in A.pairs}
+    special = False
+    for entry in A.residues:
+        g = entry["group"]
+        obj = entry["obj"]
+        if g is None:
+            continue
+        if g[0] == "water":
+            state = "WAT"
+        elif g[0] == "na":
+            state = getattr(obj, "ffname", obj.name)  # nucleotide state names are checked via charges in C02
+        else:
+            exp = A.expected[(g[1], g[2])]
+            state, _core = e2e.final_state_name(entry, exp)
+            if "--assign-only" in opts and exp["his_any"]:
+                state = exp["prefix"] + "HIP"
+            if exp["prefix"] or exp["core"] not in topo.AA20:
+                special = True
+            ffname = getattr(obj, "ffname", None)
+            if ffname != state:
+                res.label("state-differs")  # judged by C02/C06; use the code's state for the lookup
+                state = ffname
+        tab = model.get(state, {})
+        for name, a in entry["atoms"].items():
+            e = tab.get(name)
+            ln = written.get(id(a))
+            if e is None:
+                if ln is not None:
+                    res.bad("C01:e2e:borrowed", f"{ff} {state} {name}: no entry in the force field, yet written "
+                            f"with q={ln['q']} r={ln['r']}")  # fmt: skip
+                elif id(a) not in A.missing_ids:
+                    res.bad("C01:e2e:silently-omitted", f"{ff} {state} {name}: omitted but not reported as unassigned")
+                continue
+            if ln is None:
+                res.bad("C01:e2e:not-written", f"{ff} {state} {name}: force field defines {e[:2]} but the atom was not written")
+                continue
+            if abs(ln["q"] - e[0]) > 5.1e-5 or abs(ln["r"] - e[1]) > 5.1e-5:
+                res.bad("C01:e2e:value", f"{ff} {state} {name}: written q={ln['q']} r={ln['r']}, force field "
+                        f"{e[0]} {e[1]} (native {e[2]} {e[3]})")  # fmt: skip
+    res.nontrivial = special or bool(desc.get("na"))
+    return res
+
+
 def parts(tier):
     return [
         Part("table", check_table, cases=table_cases, exhaustive=True),
         Part("userff", check_userff, strategy=userff_case(), budget=dict(quick=400, thorough=5000)),
+        Part("e2e", check_e2e, strategy=e2e_case(), budget=dict(quick=480, thorough=10000)),
     ]
 
 
